@@ -230,7 +230,7 @@ def replSetDefinition (env : Env) (pattern flags replacement : Str) : M Unit := 
   | .unsupported => raise (.unsupportedRegex pattern)
   | .missing => raise (.needCompile pattern flgs)
   | .ok p =>
-    let p := { p with src := pattern, flags := flgs }
+    let p := { p with src := pattern }
     modify fun s =>
       if s.replDefs.any (·.pat.src == pattern) then
         { s with replDefs := updFirst s.replDefs p }
